@@ -69,5 +69,6 @@ def isfinite(
     if out is None:
         out_ = numpy.all(numpy.asarray(out_.coefficients), axis=0)
     else:
-        out_ = numpy.all(numpy.asarray(out_.coefficients), out=out[0], axis=0)
+        out = out[0] if isinstance(out, tuple) else out
+        out_ = numpy.all(numpy.asarray(out_.coefficients), out=out, axis=0)
     return out_
